@@ -15,6 +15,7 @@ int vp_native_nondet(int kind) {
   if (tvmode && kind < 10) return 0;
   return pos < nvals ? vals[pos++] : 0;
 }
+int vp_native_pos(void) { return pos; }
 void vp_native_assert_fail(int id, const char* txt) { printf("ASSERT-FAIL id=%d %s\n", id, txt); fflush(stdout); }
 void vp_native_assume_fail(void) { printf("ASSUME-FAIL\n"); fflush(stdout); exit(3); }
 void vp_log(int tag, int v) { printf("LOG %d %d\n", tag, v); }
